@@ -9,8 +9,9 @@ open Ak Ak.Proto CliGraph
 new <sw> <default|-> <decl>...     -> ok | err AssertionError     (sw = three bits: _no_log, _no_log_file, _help_if_no_args)
 single <sw>                        -> ok                          (ArgParser without commands)
 deps                               -> deps <name>:<dep>/<dep> ...        (internal, diagnostic)
-opt <parser|*> <flag|flagoff|const=V|value|pos1|pos?|pos*|pos+>[@dest] <string>...   -> ok | err ArgumentError | err ValueError | err AssertionError
+opt <parser|*> <flag|flagoff|const=V|value|pos1|pos?|pos*|pos+>[!][@dest] <string>...   (value=D: default D; '!': required=True)   -> ok | err ArgumentError | err ValueError | err AssertionError
 parse <token>...                   -> ok <dest>=<value> ... | err SystemExit <code> | err <Exception>
+parsev <token>...                  -> like parse, through parse_args() with sys.argv set
 parse2 <token>...                  -> <reply of parse> | <reply of a second parse_args with the same list object>
 lst <token>...                     -> L:<the caller's list after parse_args>                        (diagnostic)
 ```
@@ -89,23 +90,27 @@ def showList (l : List (Option Name)) : String :=
   "L:" ++ "/".intercalate (l.map fun x => match x with | some n => showCps n | none => "N")
 
 /-- `flag`, `flagoff`, `const=<cps>`, `value`, `pos1`, `pos?`, `pos*`, `pos+`, each optionally followed by `@<dest cps>` -/
-def parseKind (t : String) : Option (Kind × Option Name) :=
+def parseKind (t : String) : Option (Kind × Option Name × Bool × Option Name) :=
   let parts := t.splitOn "@"
   let dest : Option (Option Name) := match parts with
     | [_] => some none
     | [_, d] => (parseCps d).map some
     | _ => none
-  let k := match parts with
+  let k0 := match parts with
     | k :: _ => k
     | [] => ""
-  let kind : Option Kind :=
-    if k = "flag" then some .flag else if k = "flagoff" then some .flagOff else if k = "value" then some .value
-    else if k = "pos1" then some (.pos .one) else if k = "pos?" then some (.pos .opt)
-    else if k = "pos*" then some (.pos .star) else if k = "pos+" then some (.pos .plus)
-    else if k.startsWith "const=" then (parseCps (k.drop 6).toString).map Kind.const
+  let req := k0.endsWith "!"
+  let k := if req then (k0.dropEnd 1).toString else k0
+  let kind : Option (Kind × Option Name) :=
+    if k = "flag" then some (.flag, none) else if k = "flagoff" then some (.flagOff, none)
+    else if k = "value" then some (.value, none)
+    else if k = "pos1" then some (.pos .one, none) else if k = "pos?" then some (.pos .opt, none)
+    else if k = "pos*" then some (.pos .star, none) else if k = "pos+" then some (.pos .plus, none)
+    else if k.startsWith "const=" then (parseCps (k.drop 6).toString).map (fun v => (Kind.const v, none))
+    else if k.startsWith "value=" then (parseCps (k.drop 6).toString).map (fun v => (Kind.value, some v))
     else none
   match kind, dest with
-  | some kd, some d => some (kd, d)
+  | some (kd, df), some d => some (kd, d, req, df)
   | _, _ => none
 
 def handle (s : DSt) (line : String) : DSt × String :=
@@ -138,15 +143,25 @@ def handle (s : DSt) (line : String) : DSt × String :=
     | .poisoned => (s, "poisoned")
     | .ready ap =>
       match (if target = "*" then some none else (parseCps target).map some), parseKind kind, parseStrs strs with
-      | some tg, some (k, dst), some ss =>
+      | some tg, some (k, dst, req, df), some ss =>
         if ss.isEmpty || !(ss.all (optStringOk k.isPos)) || (k.isPos && (ss.length != 1 || dst.isSome))
-            || !ss.Nodup then (s, "bad-op")
+            || !ss.Nodup || (k.isPos && req) then (s, "bad-op")
         else
-          match ap.addOption tg { strings := ss, kind := k, mutex := false, dest := dst } with
+          match ap.addOption tg { strings := ss, kind := k, mutex := false, dest := dst, required := req, dflt := df } with
           | .ok ap' => (.ready ap', "ok")
           | .error (.exc e) => (s, "err " ++ e.name)      -- get_cmd_parser failed: nothing was touched
           | .error e => (.poisoned, showFail e)
       | _, _, _ => (s, "bad-op")
+  | "parsev" :: toks =>          -- parse_args() reading sys.argv: the same vector, a private copy
+    match s with
+    | .empty => (s, "no-parser")
+    | .poisoned => (s, "poisoned")
+    | .ready ap =>
+      match parseStrs toks with
+      | some ts =>
+        if !(ts.all tokOk) then (s, "bad-op")
+        else (s, showRes (parseList cfg ap (ts.map some)).1)
+      | none => (s, "bad-op")
   | "parse" :: toks =>
     match s with
     | .empty => (s, "no-parser")
